@@ -16,6 +16,11 @@ import vlib
 def run(ctx):
     binary = vlib.build_harness(ctx)
     vlib.design_check(ctx, "ardop", "Ardop", "Ardop_safety.cfg")
+    vlib.design_check(ctx, "ardop", "Ardop", "Ardop_twowrites.cfg")
+    for cfg, inv in (("Ardop_lockpositive.cfg", "FlushAfterBufferZero"), ("Ardop_stalefault.cfg", "RetransmitOnCrcFault"), ("Ardop_progress.cfg", "FlushAfterBufferZero")):
+        d = vlib.tlc(ctx, "ardop", "Ardop", cfg)
+        if d.violated != inv:
+            raise vlib.Undecided("%s no longer exhibits the violation of %s it documents" % (cfg, inv))
     obs = vlib.tlc(ctx, "ardop", "Ardop", "Ardop_liveness.cfg")
     ctx.notes.append("Ardop_liveness.cfg: FlushEventuallyReturns %s (observation, not part of C14)" % ("violated" if obs.error else "holds"))
     traces = ctx.path("traces.ndjson")
@@ -41,6 +46,12 @@ def run(ctx):
         elif op == "TncData":
             key = "C14/tnc-frames/" + ("malformed" if not ev["wellformed"] else "payload")
             what = "what the TNC received: wellformed=%s payloadOK=%s (%s of %s bytes), scenario %s" % (ev["wellformed"], ev["payloadOK"], ev["got"], ev["want"], sc)
+        elif op == "TncLog":
+            key, what = "C14/flush/before-buffer-zero", "Flush returned although the TNC had not reported BUFFER 0 after the last data frame it accepted: log %s (scenario %s)" % (
+                [(e["k"], e["v"]) for e in ev["log"]], sc)
+        elif op == "TncFaults":
+            key = "C14/crcfault-not-retransmitted/" + (sc.get("script") or "plain")
+            what = "a data frame answered with CRCFAULT was never sent again: TNC log %s (scenario %s)" % ([(e["k"], e["v"]) for e in ev["log"]], sc)
         elif op == "Retransmit":
             key, what = "C14/retransmit", "after CRCFAULT the frame was not retransmitted byte for byte (scenario %s)" % sc
         elif op == "Ptt":
